@@ -257,7 +257,12 @@ def run_cases(prop, tier, seed, workdir, extra_args=()):
         p = subprocess.run([os.path.join(BUILD, 'sqdrive'), 'gen', '-prop', prop, '-tier', tier, '-seed', str(seed)] + list(extra_args),
                            stdout=f, stderr=subprocess.PIPE, text=True, env=GOENV)
     if p.returncode != 0:
-        return None, 'sqdrive failed: ' + p.stderr[-2000:]
+        # the driver process died (a panic in a background goroutine cannot be recovered): find the case it was running
+        q = subprocess.run([os.path.join(BUILD, 'sqdrive'), 'gen', '-prop', prop, '-tier', tier, '-seed', str(seed), '-begin'] + list(extra_args),
+                           stdout=subprocess.PIPE, stderr=subprocess.PIPE, text=True, env=GOENV)
+        last = [l for l in q.stdout.split('\n') if l.startswith('BEGIN ')]
+        case = last[-1][6:] if last else ''
+        return None, 'CRASH\t' + case + '\t' + p.stderr[:1500]
     # the model side is sharded over the cores (binary Coq integers are slow); results keep the case order
     nshard = int(os.environ.get('VERIF_SHARDS', '14'))
     lines = open(cases).read().split('\n')
@@ -345,6 +350,15 @@ def main(argv):
             pa_ok, axioms, pa_text = print_assumptions(prop)
         model_ok, model_msg = build_model() if coq_ok else (os.path.exists(os.path.join(BUILD, 'sqmodel')), 'Coq build failed; using the last extracted model')
         drv_ok, drv_msg = build_driver()
+        chk_text = ''
+        if coq_ok and pa_ok and tier == 'thorough':
+            # independent re-check of the compiled property file and everything it depends on
+            rc, out = sh(['coqchk', '-silent', '-o', '-R', TH, 'SQ', 'SQ.Properties.' + prop], cwd=COQ, timeout=3000)
+            m = re.search(r'\* Axioms:(.*?)\n\s*\n', out, flags=re.S)
+            chk_text = 'coqchk: rc=%d axioms=%s' % (rc, (m.group(1).strip() if m else '?'))
+            if rc != 0 or not m or m.group(1).strip() != '<none>':
+                coq_ok = False
+                coq_msg = 'coqchk does not accept Properties/%s.vo without axioms: %s' % (prop, out[-600:])
     thm_file = os.path.join(TH, 'Properties', prop + '.v')
     obligations, cone_files = count_obligations(thm_file)
     discharged = obligations if (coq_ok and pa_ok) else 0
@@ -368,7 +382,14 @@ def main(argv):
     try:
         if corr_problem is None:
             rows, stats = run_cases(prop, tier, seed, workdir)
-            if rows is None:
+            if rows is None and stats.startswith('CRASH\t'):
+                _, case, err = stats.split('\t', 2)
+                path = write_replay(prop, 'input', {'property': prop, 'kind': 'failing-input', 'case': case + ' => (process died)', 'stderr': err,
+                                    'explanation': 'the driver process died while executing this case: a panic outside the calling goroutine (or a fatal runtime error) cannot be recovered by the caller'})
+                violations.append((path, True, 'the process died while running a case: ' + err.split('\n')[0][:200]))
+                stats = ''
+                rows = []
+            elif rows is None:
                 corr_problem = stats
         # property-specific extra stages (schedule exploration, fault timing, child processes)
         for stage in cfg.get('stages', []):
@@ -452,7 +473,7 @@ def main(argv):
         'checker_cmd': 'cd /verif/coq && make -j16 && coqc -R theories SQ theories/Properties/%s.v' % prop,
         'trusted_base': trusted,
         'proof_files': cone_files,
-        'print_assumptions': pa_text,
+        'print_assumptions': pa_text, 'coqchk': chk_text,
         'evaluations': len(rows or []), 'distinct_nontrivial': len(distinct),
         'rule': cfg.get('rule', ''),
         'samples': samples or ['(no cases ran)'],
